@@ -350,4 +350,39 @@ theorem prettyOf_nonstrict {cfg : Cfg} (hs : cfg.strict = false) {raw : Bytes} (
     · simp only [hll, hl, decide_false, Bool.false_eq_true, if_false]
       rw [trimR_of_short (by omega) h]
 
+
+/-! ### the path as handed to `register`, up to what `getGroupPath` and `register` read of it -/
+
+/-- canonical form of a registration path: `getGroupPath` and `register` only look at whether it is
+empty and, if not, at the path with its leading slash -/
+def canon (o : Bytes) : Bytes := if o = [] then [] else rawOf o
+
+theorem canon_nil : canon [] = [] := rfl
+
+theorem canon_of_ne {o : Bytes} (h : o ≠ []) : canon o = rawOf o := by simp [canon, h]
+
+theorem canon_eq_nil {o : Bytes} : canon o = [] ↔ o = [] := by
+  by_cases h : o = []
+  · simp [h, canon]
+  · simp [canon, h, rawOf, ensureSlash_ne_nil]
+
+theorem rawOf_canon (o : Bytes) : rawOf (canon o) = rawOf o := by
+  by_cases h : o = []
+  · simp [h, canon]
+  · rw [canon_of_ne h]; exact ensureSlash_idem o
+
+theorem ggp_canon (pre o : Bytes) : getGroupPath pre (canon o) = getGroupPath pre o := by
+  by_cases h : o = []
+  · simp [h, canon]
+  · have hr : rawOf o ≠ [] := ensureSlash_ne_nil o
+    rw [canon_of_ne h, ggp_of_ne h, ggp_of_ne hr]
+    simp only [rawOf, ensureSlash_idem]
+
+theorem canon_idem (o : Bytes) : canon (canon o) = canon o := by
+  by_cases h : o = []
+  · simp [h, canon]
+  · rw [canon_of_ne (fun e => h (canon_eq_nil.mp e)), rawOf_canon, canon_of_ne h]
+
+example : canon (b "x") = b "/x" ∧ canon (b "") = b "" ∧ canon (b "/") = b "/" := by decide
+
 end C04
